@@ -29,13 +29,20 @@ Record pipeline := mkP { p_id : pid; p_recv : list cid; p_procs : list cid; p_ex
 Definition p_sig (P : pipeline) : nat := fst (p_id P).
 
 (* pipelines.Config is a Go map keyed by pipeline.ID: keys are unique (hypothesis [wf_config] of
-   the theorems); conns = the connector builder's configured ids, each with its factory's
-   supported (exporter-signal, receiver-signal) pairs (connectorStability <> Undefined). *)
-Record config := mkC { pipes : list pipeline; conns : list (cid * (bool * list (nat * nat))) }.
+   the theorems); conns = the connector builder's configured ids, each with its factory:
+   Some (does the factory implement the experimental xconnector.Factory interface?, the (exporter-signal,
+   receiver-signal) pairs for which the factory reports a stability level other than Undefined);
+   None = the id is configured but no factory is registered for its type (ConnectorBuilder.Factory
+   returns nil).
+   noprof = the plain components (kind 0 receiver / 1 processor / 2 exporter, id) whose factory comes from the
+   stable receiver/processor/exporter.NewFactory, i.e. does not implement the x-interface the builders need for
+   the profiles signal. *)
+Record config := mkC { pipes : list pipeline; conns : list (cid * option (bool * list (nat * nat)));
+                       noprof : list (nat * cid) }.
 
 Definition memn (k : nat) (l : list nat) : bool := existsb (Nat.eqb k) l.
 
-Fixpoint lookup_conn (k : cid) (l : list (cid * (bool * list (nat * nat)))) : option (bool * list (nat * nat)) :=
+Fixpoint lookup_conn (k : cid) (l : list (cid * option (bool * list (nat * nat)))) : option (option (bool * list (nat * nat))) :=
   match l with
   | [] => None
   | (k', m) :: r => if Nat.eqb k k' then Some m else lookup_conn k r
@@ -50,9 +57,9 @@ Definition is_conn (c : config) (k : cid) : bool :=
    xconnector.Factory (type assertion), a pair among traces/metrics/logs does not. *)
 Definition supported (c : config) (k : cid) (E R : nat) : bool :=
   match lookup_conn k (conns c) with
-  | Some (x, m) => existsb (fun p => Nat.eqb (fst p) E && Nat.eqb (snd p) R) m
-                   && (x || (Nat.ltb E 3 && Nat.ltb R 3))
-  | None => false
+  | Some (Some (x, m)) => existsb (fun p => Nat.eqb (fst p) E && Nat.eqb (snd p) R) m
+                          && (x || (Nat.ltb E 3 && Nat.ltb R 3))
+  | _ => false
   end.
 
 (* ---- pipelines/config.go ---------------------------------------------------------------- *)
@@ -112,7 +119,7 @@ Definition as_recv (c : config) (k : cid) : list pipeline := filter (fun P => me
 
 (* expTypes / recTypes and the two errors.  For one connector the exporter-side loop runs first;
    which connector (and which signal) is met first is Go map order. *)
-Inductive cerr := ErrExp (k : cid) (s : nat) | ErrRecv (k : cid) (s : nat).
+Inductive cerr := ErrExp (k : cid) (s : nat) | ErrRecv (k : cid) (s : nat) | ErrNoFactory (k : cid).
 
 Definition exp_types (c : config) (k : cid) : list nat := dedup Nat.eqb (map p_sig (as_exp c k)).
 Definition rec_types (c : config) (k : cid) : list nat := dedup Nat.eqb (map p_sig (as_recv c k)).
@@ -121,8 +128,12 @@ Definition exp_errs (c : config) (k : cid) : list cerr :=
   map (ErrExp k) (filter (fun E => negb (existsb (fun R => supported c k E R) (rec_types c k))) (exp_types c k)).
 Definition rec_errs (c : config) (k : cid) : list cerr :=
   map (ErrRecv k) (filter (fun R => negb (existsb (fun E => supported c k E R) (exp_types c k))) (rec_types c k)).
+(* per connector: "connector factory not available for: <type>" comes first *)
 Definition first_errs (c : config) (k : cid) : list cerr :=
-  match exp_errs c k with [] => rec_errs c k | l => l end.
+  match lookup_conn k (conns c) with
+  | Some None => [ErrNoFactory k]
+  | _ => match exp_errs c k with [] => rec_errs c k | l => l end
+  end.
 Definition possible_errors (c : config) : list cerr := flat_map (first_errs c) (used_conns c).
 
 (* the final double loop: one connector node per supported (exporter pipeline, receiver pipeline)
@@ -186,31 +197,57 @@ Definition cyclic (V : list node) (E : list (node * node)) : bool := anyb (longw
 
 Record graph := mkG { g_nodes : list node; g_edges : list (node * node) }.
 
-Inductive berr := EPanic | EUnsupported | ECycle.
+Inductive berr := EPanic | EUnsupported | ECycle | EFactory.
 Inductive result := Ok (g : graph) | Err (e : berr).
 
-(* graph.Build.  EPanic: createProcessor calls AddNode unconditionally, gonum panics on a node-id
+Definition is_component (n : node) : bool :=
+  match n with Cap _ | Fan _ => false | _ => true end.
+
+(* builders.{Receiver,Processor,Exporter}Builder.CreateProfiles: "telemetry type is not supported" when the
+   factory is not an x-factory; buildComponent wraps it ("failed to create ... for data type profiles") *)
+Definition cannot_create (c : config) (n : node) : bool :=
+  match n with
+  | Recv 3 r => existsb (fun p => Nat.eqb (fst p) 0 && Nat.eqb (snd p) r) (noprof c)
+  | Proc (3, _) i => existsb (fun p => Nat.eqb (fst p) 1 && Nat.eqb (snd p) i) (noprof c)
+  | Exp 3 e => existsb (fun p => Nat.eqb (fst p) 2 && Nat.eqb (snd p) e) (noprof c)
+  | _ => false
+  end.
+
+(* graph.Build.  EFactory: buildComponents creates the components one by one (reverse topological order) and
+   returns the first factory error; the components created before it exist, none is started.
+   EPanic: createProcessor calls AddNode unconditionally, gonum panics on a node-id
    collision, i.e. when one pipeline lists a processor twice (PipelineConfig.Validate rejects
    that configuration before Build is reached in the service). *)
 Definition build (c : config) : result :=
   if existsb (fun P => has_dup (p_procs P)) (pipes c) then Err EPanic
   else if negb (is_nil (possible_errors c)) then Err EUnsupported
   else if cyclic (nodes_of c) (edges_of c) then Err ECycle
+  else if existsb (cannot_create c) (filter is_component (nodes_of c)) then Err EFactory
   else Ok (mkG (nodes_of c) (edges_of c)).
-
-Definition is_component (n : node) : bool :=
-  match n with Cap _ | Fan _ => false | _ => true end.
 
 (* one factory Create call per component node (the order — reverse topological — belongs to C10) *)
 Definition created (g : graph) : list node := filter is_component (g_nodes g).
 
+(* Graph.StartAll: "host cannot be nil" before anything is touched; otherwise every component is started
+   (reverse topological order: C10) *)
+Definition start_all (host_present : bool) (g : graph) : option (list node) :=
+  if host_present then Some (created g) else None.
+
 (* what the service does with the configuration: validate, build, start everything that was
    built (service.go: initGraph error => Start is never reached).  Event log as two multisets. *)
 Inductive event := Create (n : node) | Start (n : node).
-Definition service_log (c : config) : list event :=
+(* the factory calls made before the first failing one, given the creation order [ord] (an oracle: gonum's sort) *)
+Fixpoint create_until (c : config) (ord : list node) : list node :=
+  match ord with
+  | [] => []
+  | n :: r => if cannot_create c n then [] else n :: create_until c r
+  end.
+
+Definition service_log (ord : list node) (c : config) : list event :=
   if validate c then
     match build c with
     | Ok g => map Create (created g) ++ map Start (created g)
+    | Err EFactory => map Create (create_until c ord)
     | Err _ => []
     end
   else [].
